@@ -43,6 +43,9 @@ func GetStructAttributeValue(obj reflect.Value, fieldName string) (reflect.Value
 	} else {
 		attrVal = stru.FieldByName(fieldName)
 	}
+	if !attrVal.IsValid() {
+		return attrVal, errors.New(fmt.Sprintf("struct has no this field: %s", fieldName))
+	}
 	return attrVal, nil
 }
 
